@@ -109,6 +109,12 @@ def build_case(p, comp, subs_terms):
     """-> (case dict or None, status) ; status in accepted/rejected/unreadable"""
     obs = []
     events = {}
+    oks = {f: comp[f]["ok"] for f in FORMATS if f in comp}
+    if len(set(oks.values())) > 1:
+        # C16: the two layouts must agree on acceptance
+        bad = [f for f in oks if not oks[f]][0]
+        return None, ("unreadable", "layouts", "accepted in one layout and rejected in the other (%s: %s/%s %s)" % (
+            bad, comp[bad].get("exc"), comp[bad].get("inner"), (comp[bad].get("msg") or "")[:80]))
     for f in FORMATS:
         if f not in comp:
             continue
